@@ -109,13 +109,20 @@ type history struct {
 	name string
 	reqs []*rq
 	hdr  string // header configuration of the transports ("" = none, the default server)
+	// recover func / error presenter configuration (fail.go; "" = "d": nothing configured, the defaults)
+	errCfg string
 }
 
+// hdrCfg: the server options "<header configuration>[/<error configuration>]"
 func (h history) hdrCfg() string {
-	if h.hdr == "" {
-		return "none"
+	o := h.hdr
+	if o == "" {
+		o = "none"
 	}
-	return h.hdr
+	if h.errCfg != "" && h.errCfg != "d" {
+		o += "/" + h.errCfg
+	}
+	return o
 }
 
 // acc: the same request with an Accept header (the header part of the driver encoding is rebuilt)
@@ -371,6 +378,8 @@ func directedHistories() []history {
 		}
 		hs = append(hs, history{name: fmt.Sprintf("introspection-then-dependent-requests:%d", c/5), reqs: reqs})
 	}
+	// round 5: failure outcomes as carriers of state between requests (fail.go)
+	hs = append(hs, failureHistories()...)
 	return hs
 }
 
